@@ -1,0 +1,9 @@
+// Copyright JAMF Software, LLC
+
+//go:build !verif
+
+package pebble
+
+import "github.com/cockroachdb/pebble"
+
+func verifOptions(string, *pebble.Options) {}
